@@ -353,6 +353,10 @@ def _choice_cells(draw, field, fmt, n):
     for c in cells[:4]:
         out.append(_mutate_text(draw, c, "abX1 ä"))
     out += draw(st.lists(st.sampled_from(_WORDS + _QUOTED), min_size=1, max_size=2))
+    # a listed number is a text like any other: written with the other decimal separator it is another text
+    for c in choices[:3]:
+        if "." in c or "," in c:
+            out.append(c.replace(".", "\0").replace(",", ".").replace("\0", ","))
     return out
 
 
